@@ -555,7 +555,27 @@ func c14Worker(w *W) {
 			how = "scan triggered by a real rotation"
 			// cross one real boundary; the rotation starts the scan asynchronously
 			now := time.Now()
-			time.Sleep(now.Truncate(time.Second).Add(time.Second + 5*time.Millisecond).Sub(now))
+			nextB := now.Truncate(time.Second).Add(time.Second)
+			if ci%2 == 0 && c.MaxAge <= 1000 {
+				// the rotating write comes 600 ms INTO the new period, and one own file reaches the maximum age 300 ms after
+				// the boundary: when the rotation's scan runs it is older than the configured maximum age and goes
+				justExpired := c.FileName + ".20010203040506"
+				p := filepath.Join(dir, justExpired)
+				if _, exists := before[justExpired]; !exists && os.WriteFile(p, []byte("x\n"), 0644) == nil {
+					mt := nextB.Add(300 * time.Millisecond).Add(-time.Duration(c.MaxAge) * time.Hour)
+					tsp := syscall.NsecToTimespec(mt.UnixNano())
+					if syscall.UtimesNano(p, []syscall.Timespec{tsp, tsp}) == nil {
+						c.Ents = append(c.Ents, c14ent{Name: justExpired, AgeMin: int(c.MaxAge)*60 + 1, Class: "own-expired-between-boundary-and-rotating-write"})
+						before[justExpired] = false
+						w.Count("own_files_expiring_between_boundary_and_rotating_write", 1)
+					} else {
+						_ = os.Remove(p)
+					}
+				}
+				time.Sleep(time.Until(nextB.Add(600 * time.Millisecond)))
+			} else {
+				time.Sleep(time.Until(nextB.Add(5 * time.Millisecond)))
+			}
 			for _, a := range aps {
 				a.Write([]byte("after boundary\n"))
 			}
